@@ -862,6 +862,10 @@ package psatoken
 //@   option allocs=none
 //@   loop 0 invariant len(buf) <= len(buf0) && (cborTagWalk(buf0) == 2 || cborTagWalk(buf) == cborTagWalk(buf0))
 //@   loop 0 decreases len(buf)
+// a second candidate set for the same loop written with an index variable instead of re-slicing (any
+// inductive invariant that carries ensures[walk] is a proof; govc tries this set only if the first has none)
+//@   loop 0 alt invariant 0 <= i && i <= len(buf) && (cborTagWalk(buf0) == 2 || cborTagWalk(buf[i:]) == cborTagWalk(buf0))
+//@   loop 0 alt decreases len(buf) - i
 
 //@ ground[C20 C07 C04] iscbormap-audit : isCBORMapAudit()
 
